@@ -25,6 +25,14 @@ func init() {
 	reg("(*net/http.Client).Do", func(c *callCtx) Val {
 		ex := c.ex
 		ex.used["ASSUMED libspec: (*http.Client).Do returns an error or a response with a non-nil Body and any status"] = true
+		// bounded: the request carries a context with a deadline, or the client has an overall timeout
+		ex.registerKey("X|http.reqctx", arrSort(sInt, sInt))
+		rc := sel(ex.heapGet(c.st, "X|http.reqctx", arrSort(sInt, sInt)), c.args[1].L[0])
+		bounded := sel(ex.ctxBounded(c.st), rc)
+		if to, okf := ex.fieldOf(c.st, c.args[0], "Timeout"); okf {
+			bounded = or(bounded, app(">", to.L[0], "0"))
+		}
+		c.blockingBound("http.Client.Do", bounded)
 		ok := ex.freshConst("httpok", sBool)
 		respT := c.cc.Signature().Results().At(0).Type()
 		ref := ex.alloc(c.st)
@@ -88,4 +96,46 @@ func init() {
 		return Val{L: []string{ite(nn, tag, "0"), ite(nn, ref, "0")}}
 	})
 	pureLib["strings.TrimSpace"] = true
+	// requests: NewRequest uses context.Background(), NewRequestWithContext the given context
+	newReq := func(withCtx bool) libFn {
+		return func(c *callCtx) Val {
+			ex := c.ex
+			ok := ex.freshConst("reqok", sBool)
+			ref := ex.alloc(c.st)
+			ex.registerKey("X|http.reqctx", arrSort(sInt, sInt))
+			h := ex.heapGet(c.st, "X|http.reqctx", arrSort(sInt, sInt))
+			cref := "0"
+			if withCtx {
+				cref = c.args[0].L[1]
+			} else {
+				bg := libHandlers["context.Background"](c)
+				cref = bg.L[1]
+			}
+			if ex.pure == 0 {
+				ex.setH(c.st, "X|http.reqctx", ex.name("reqctx", sto(h, ref, cref), arrSort(sInt, sInt)))
+			}
+			e := ex.newWrappedError(c.st, nil, not(ok), "reqerr")
+			return Val{L: []string{ite(ok, ref, "0"), e.L[0], e.L[1]}}
+		}
+	}
+	reg("net/http.NewRequest", newReq(false))
+	reg("net/http.NewRequestWithContext", newReq(true))
+	pureLib["github.com/cenkalti/backoff/v5.WithBackOff"] = true
+	// backoff.Retry(ctx, operation, opts...): runs operation at least once, again after a retryable failure while ctx
+	// allows; the attempts are synchronous (ctx is only consulted between attempts). Modelled: one symbolic attempt
+	// (so that the operation's own obligations are checked in the caller's context), then an arbitrary outcome that
+	// is a value or an error.
+	reg("github.com/cenkalti/backoff/v5.Retry", func(c *callCtx) Val {
+		ex := c.ex
+		ex.used["ASSUMED libspec: backoff.Retry runs the operation synchronously at least once; result is a value or an error"] = true
+		op := c.args[1]
+		if op.F != nil && op.F.Fn != nil && c.fr != nil {
+			ex.callFn(c.fr, op.F.Fn, nil, op.F.Bind, c.st, c.reach, c.instr, nil)
+		}
+		rt := c.res.At(0).Type()
+		v := ex.freshVal(rt, c.st, "retry")
+		e := ex.freshVal(errorT(), c.st, "retryerr")
+		ex.assumeExternalError(e)
+		return Val{L: append(append([]string{}, v.L...), e.L...)}
+	})
 }
